@@ -685,3 +685,76 @@ func runWholeInput(p *Program, r *RuleResult) {
 	}
 	r.count("input sources judged", judged)
 }
+
+// R-PER-RUNE-CONST (C11): the functions the scanner runs once per input rune do a bounded
+// amount of work.
+func init() {
+	register(&Rule{Name: "R-PER-RUNE-CONST", Min: 2,
+		Doc: "the read and un-read wrappers of the scanner (executed once per rune of the input) contain no loop, call nothing but the buffered reader's rune functions and builtins, and never copy a slice of the scanner's state (append(x, s.f...), copy, a conversion of the whole slice): such a copy costs time proportional to the input consumed so far, which makes scanning quadratic",
+		Run: runPerRuneConst})
+}
+
+func runPerRuneConst(p *Program, r *RuleResult) {
+	ri := findScannerReader(p)
+	if ri == nil || ri.Read == nil {
+		r.add(parserPkg, "rune-reader", Undecided, "", "the wrapper of bufio.Reader.ReadRune was not found")
+		return
+	}
+	fns := []*ssa.Function{ri.Read}
+	for _, fn := range p.SrcFuncs {
+		if fn.Pkg == nil || fn.Pkg.Pkg.Path() != parserPkg {
+			continue
+		}
+		for _, c := range p.callsIn(fn) {
+			if sc := c.Common().StaticCallee(); sc != nil && sc.String() == "(*bufio.Reader).UnreadRune" {
+				fns = append(fns, fn)
+			}
+		}
+	}
+	for _, fn := range fns {
+		view := p.View(fn)
+		bad := ""
+		if len(view.Loops()) > 0 {
+			bad = "it contains a loop"
+		}
+		for _, c := range p.callsIn(fn) {
+			com := c.Common()
+			if bi, ok := com.Value.(*ssa.Builtin); ok {
+				switch bi.Name() {
+				case "append":
+					// append(x, y...) where y is not the one-element literal of a plain append
+					if len(com.Args) == 2 {
+						fresh := false
+						if sl, ok := com.Args[1].(*ssa.Slice); ok {
+							if al, ok := sl.X.(*ssa.Alloc); ok {
+								if arr, ok := al.Type().Underlying().(*types.Pointer).Elem().Underlying().(*types.Array); ok && arr.Len() <= 4 {
+									fresh = true
+								}
+							}
+						}
+						if !fresh {
+							bad = "it appends a whole slice (" + displayKey(com.Args[1]) + "...) at " + p.instrPos(c)
+						}
+					}
+				case "copy":
+					bad = "it copies a slice at " + p.instrPos(c)
+				}
+				continue
+			}
+			sc := com.StaticCallee()
+			if sc == nil {
+				bad = "it makes a dynamic call at " + p.instrPos(c)
+				continue
+			}
+			if sc.Pkg != nil && sc.Pkg.Pkg.Path() == "bufio" {
+				continue
+			}
+			bad = "it calls " + sc.String() + " at " + p.instrPos(c)
+		}
+		if bad != "" {
+			r.add(fnName(fn), "constant-work-per-rune", Violated, p.pos(fn.Pos()), "this function runs once per rune of the input and "+bad+": the cost of scanning is no longer proportional to the length of the text")
+		} else {
+			r.add(fnName(fn), "constant-work-per-rune", Holds, p.pos(fn.Pos()), "no loop, no slice copy, only the buffered reader's rune functions")
+		}
+	}
+}
